@@ -271,8 +271,13 @@ impl<'a> Ctx<'a> {
                 j.tests.push(tj);
                 continue;
             }
-            let comm = p.comm_result().unwrap_or("none").to_string();
+            let mut comm = p.comm_result().unwrap_or("none").to_string();
             let waited_err = p.wait.as_ref().map(|w| w.1.starts_with("err")).unwrap_or(false);
+            // the pipes reached EOF but the process ran on until scrut ended it: that is a
+            // timeout as well (scrut stopped waiting for this test case)
+            if comm == "ok" && p.stopped_waiting().map(|s| s.2 == "timed_out").unwrap_or(false) {
+                comm = "timed_out".into();
+            }
             if comm == "timed_out" {
                 stop = Some(Stop::Timeout(i));
                 j.must_fail = true;
@@ -901,7 +906,8 @@ impl<'a> Ctx<'a> {
                 let eff = self.sc.effective(main, td, t);
                 let t_i = if script { None } else { eff.timeout_ns };
                 let Some((cb_t, _cb_ovh, _)) = p.comm_begin else { continue };
-                let Some((x, x_ovh, res, ..)) = p.comm_end.clone() else {
+                // (after the pipes reached EOF scrut still waits for the process itself)
+                let Some((x, x_ovh, res)) = p.stopped_waiting() else {
                     continue;
                 };
                 // earliest and latest legitimate abort instants
